@@ -69,6 +69,10 @@ def env_for(run_seed: int, label: str, rnd: random.Random, default: bool = False
         "clock_offset": rnd.choice([0, 0, 86400 * 3, 86400 * 400, -86400 * 30, 3600 * 11]),
         # python -O / -OO (asserts and docstrings stripped), and how the directories are spelled
         "optimize": rnd.choice([0, 0, 0, 1, 2]),
+        # another machine / another user
+        "machine": rnd.choice([None, None, {"cpu_count": rnd.choice([1, 2, 64]), "hostname": rnd.choice(["build-agent-17", "localhost", "DESKTOP-ÄÖ"]),
+                                              "terminal": rnd.choice([[20, 5], [80, 24], [400, 100]]), "user": rnd.choice(["ci", "root", "jürgen"]),
+                                              "home": rnd.choice(["/nonexistent", "/home/ci", "/"]), "columns": rnd.choice(["20", "80", "500"])}]),
         "path_style": rnd.choice(["abs", "abs", "rel", "slash", "dotdot"]),
     }
 
@@ -97,6 +101,7 @@ def run_generator(
         "uuid_seed": env.get("uuid_seed"),
         "ls_seed": env.get("ls_seed"),
         "clock_offset": env.get("clock_offset") or 0,
+        "fake_machine": {k_: v_ for k_, v_ in (env.get("machine") or {}).items() if k_ in ("cpu_count", "hostname", "terminal")},
         "fault": fault,
     }))
     e = {k_: v for k_, v in os.environ.items() if not k_.startswith(("PYTHON", "LSPV", "VERIF"))}
@@ -109,6 +114,10 @@ def run_generator(
     })
     if env.get("optimize"):
         e["PYTHONOPTIMIZE"] = str(env["optimize"])
+    if env.get("machine"):
+        m_ = env["machine"]
+        e.update({"USER": m_["user"], "LOGNAME": m_["user"], "USERNAME": m_["user"], "HOME": m_["home"], "COLUMNS": m_["columns"], "LINES": "10",
+                  "HOSTNAME": m_["hostname"], "TMPDIR": str(world.base), "CI": "true", "NO_COLOR": "1", "TERM": "dumb"})
     style = env.get("path_style") or "abs"
 
     def spell(pth: Optional[str]) -> Optional[str]:
